@@ -21,13 +21,18 @@ class Svc:
 
     def __init__(self, key: str, type_: str, name: str, server: str, port: int = 80, v4: Sequence[bytes] = (), v6: Sequence[bytes] = (),
                  text: bytes = b'\x05path=', host_ttl: Any = 120, other_ttl: Any = 4500) -> None:
-        self.key, self.type, self.name, self.server, self.port = key, type_, name, server, port
+        # server None: the host name defaults to the instance name (ServiceInfo.set_server_if_missing)
+        self.key, self.type, self.name, self.server, self.port = key, type_, name, server if server is not None else name, port
+        self.explicit_server = server
         self.v4, self.v6, self.text = list(v4), list(v6), text
         self.host_ttl, self.other_ttl = host_ttl, other_ttl
 
     def info(self) -> ServiceInfo:
-        return ServiceInfo(self.type, self.name, self.port, 0, 0, self.text, self.server, self.host_ttl, self.other_ttl,
+        info = ServiceInfo(self.type, self.name, self.port, 0, 0, self.text, self.explicit_server, self.host_ttl, self.other_ttl,
                            addresses=self.v4 + self.v6)
+        if self.explicit_server is None:
+            info.set_server_if_missing()  # what async_register_service does before the registry sees the object
+        return info
 
     # expected records: (Spec, ttl, unique)
     def ptr(self) -> Tuple[Spec, Any, bool]:
